@@ -1025,11 +1025,13 @@ impl<S: CommandSink> CommandSink for HintingSink<'_, S> {
     fn hint_mask(&mut self, mask: &[u8]) {
         // For invalid hint masks, FreeType assumes all hints are active.
         // See <https://gitlab.freedesktop.org/freetype/freetype/-/blob/80a507a6b8e3d2906ad2c8ba69329bd2fb2a85ef/src/psaux/pshints.c#L844>
-        let mask = HintMask::new(mask).unwrap_or_else(HintMask::all);
-        if mask != self.mask {
-            self.mask = mask;
-            self.map.is_valid = false;
-        }
+        // FreeType flags every hint mask it reads as new (even when its
+        // bits equal the previous mask) and rebuilds the hint map; stems
+        // used by the previous map are locked by then, so the rebuilt map
+        // can differ.
+        // See <https://gitlab.freedesktop.org/freetype/freetype/-/blob/80a507a6b8e3d2906ad2c8ba69329bd2fb2a85ef/src/psaux/psintrp.c#L122>
+        self.mask = HintMask::new(mask).unwrap_or_else(HintMask::all);
+        self.map.is_valid = false;
     }
 
     fn counter_mask(&mut self, mask: &[u8]) {
